@@ -140,6 +140,9 @@ func cmdCheck(args []string) int {
 	if *tier == "thorough" {
 		cfg.SampleCap = 128
 		cfg.PreemptBound = 3
+		if *maxPaths == 2000000 {
+			cfg.MaxPaths = 10000000 // the default cap of the thorough tier
+		}
 	}
 	pc := propConfig(id)
 	cfg.Trace = pc.Trace
